@@ -374,6 +374,7 @@ fn registry_cases(report: &mut Report, batch: &mut Batch) {
             has_locker: false,
             lock_manifests: vec![],
             lock_remote: vec![],
+            seeds: vec![],
           };
           let loader = RegLoader::new(&w);
           let Ok(b) = build_reg(&w, &loader) else {
